@@ -63,6 +63,7 @@ type Prog struct {
 	fieldCache map[*types.Var][]types.Type
 	produce    map[string]map[string]bool
 	nFuncs     int
+	callSum    map[string]int
 }
 
 func shortPath(p string) string {
@@ -183,6 +184,7 @@ func Load(repoDir, tags, goos string) (*Prog, error) {
 	}
 	p := &Prog{RepoDir: repoDir, Tags: tags, GOOS: goos, Pkgs: map[string]*packages.Package{}, Funcs: map[string]*FuncInfo{},
 		implCache: map[*types.Func][]*types.Func{}}
+	classThroughHook = p.classThrough
 	var errs []string
 	for _, pkg := range pkgs {
 		if !isProductPath(pkg.PkgPath) {
